@@ -2,7 +2,7 @@ SPEC = {
     'id': 'C09',
     'harness': 'hC09',
     'coq_dir': 'C09',
-    'claimed': False,
+    'claimed': True,
     'theorems': ['C09_getv_partial', 'C09_trash_partial', 'C09_trash_keeps_partial',
                  'C09_trash_deletes_only_old_partial', 'C09_delmvcc_restores',
                  'C09_refuted_getv', 'C09_refuted_trash'],
